@@ -675,6 +675,10 @@ impl PartialEq for Value {
             (&ValueRepr::String(ref a, _), &ValueRepr::String(ref b, _)) => a == b,
             (&ValueRepr::SmallStr(ref a), &ValueRepr::SmallStr(ref b)) => a.as_str() == b.as_str(),
             (&ValueRepr::Bytes(ref a), &ValueRepr::Bytes(ref b)) => a == b,
+            // same identity as `Hash` uses for invalid values
+            (&ValueRepr::Invalid(ref a), &ValueRepr::Invalid(ref b)) => {
+                a.kind() == b.kind() && a.detail() == b.detail()
+            }
             // `coerce` cannot represent u128 values above i128::MAX.
             (&ValueRepr::U128(a), &ValueRepr::U128(b)) => ({ a.0 }) == { b.0 },
             _ => match ops::coerce(self, other, false) {
@@ -876,6 +880,11 @@ impl Ord for Value {
                 a.as_str().cmp(b.as_str())
             }
             (&ValueRepr::Bytes(ref a), &ValueRepr::Bytes(ref b)) => a.cmp(b),
+            // two invalid values are not objects: order them by what `Hash` and `==`
+            // identify them by instead of running into the object comparison below.
+            (&ValueRepr::Invalid(ref a), &ValueRepr::Invalid(ref b)) => {
+                (a.kind() as usize, a.detail()).cmp(&(b.kind() as usize, b.detail()))
+            }
             // `coerce` represents two u128 values as i128, which reverses the
             // order if only one of them exceeds i128::MAX.
             (&ValueRepr::U128(a), &ValueRepr::U128(b)) => { a.0 }.cmp(&{ b.0 }),
